@@ -63,7 +63,7 @@
 (*               e.g. 'A' and E.A in a Set[Any]: the dump has duplicates.  *)
 (*   yamlFloatStr (dump) the str '1e3' is written plain and read back as a *)
 (*               float (the loader's float pattern is wider than the       *)
-(*               dumper's).                                                *)
+(*               dumper's).  REPAIRED by f3cd0b1: never predicted now.     *)
 (*   serLenient  (dump) with serialize=True a member of a Union that never  *)
 (*               accepted the value can still write it: the leaf branch    *)
 (*               loads strings ('1' is written as 1 by an int member) and  *)
@@ -560,9 +560,11 @@ AlgParseAbsent(t, d, normalises) ==
 
 \* adapt_typehints(..., serialize=True) as called by ActionTypeHint.serialize:497-519 (no orig_val): the config
 \* representation that dump writes.
-\* PlainFloatTexts: strings of the vocabulary that yaml.safe_dump writes WITHOUT quotes although the loader of
-\* _loaders_dumpers.py:66-79 reads them as floats (the C01 finding; here it breaks dump o parse o dump).
-PlainFloatTexts == {"1e3"}
+\* PlainFloatTexts: strings of the vocabulary that the yaml dumper writes WITHOUT quotes although the loader reads
+\* them as floats.  On the pinned tree this was {"1e3"} (yaml.safe_dump, stock float pattern: the C01 finding, which
+\* here broke dump o parse o dump); repaired by f3cd0b1 (get_yaml_default_dumper shares the loader's float pattern),
+\* so the deviation yamlFloatStr is no longer exempted: the set is empty and '1e3' stays in the vocabulary.
+PlainFloatTexts == {}
 AlgSer(t, val) == AlgAdapt(t, val, NoneV, TRUE, TRUE)
 \* what the dumpers make of the tree that serialisation produced
 RECURSIVE Leaves(_)
